@@ -61,7 +61,8 @@ MANIFEST = {
              "banned addresses (non-dev networks), UnbanPeer and two simultaneous connections to one ip:port are not "
              "covered; neutrino accepts no inbound connections, so there is no inbound refusal to check. A full "
              "simulated network (Client family) is needed to observe enforcement during real sync. Known finding "
-             "KF-BS-2 (ban covers the IP, only the exact ip:port peer is dropped) is reported as KNOWN-FINDING.",
+             "KF-BS-2 (ban covers the IP, only the exact ip:port peer is dropped) is reported as KNOWN-FINDING."
+             ' Peer-set slice (specs/BanStore/PeerSet.tla, vlib/families/peerset.py): every select arm of peerHandler and every query message of notifications.go (ConnectNode, Remove/Disconnect by address and id, ban, unban, shutdown ...) as one action each, every transition replayed on the real peerHandler + connmgr + addrmgr + ban store with the btcd handshake over scripted connections; verdicts only for the enforcement sentence (banned and disconnected, no connection kept or accepted to a banned address), everything else is conformance (drift).',
         design="4 C13", technique="TLA+ specs + TLC exhaustive + spec-to-code replay of every transition (real bbolt, "
                                   "real connmgr/peer handshake over in-memory connections) + TLC-judged observed traces"),
 }
